@@ -112,5 +112,20 @@ CHECKS['C09'] = dict(
           'normalize_mappings(), Names.__iter__, encode_sourcemap.'),
 )
 
+CHECKS['C18'] = dict(
+    engine='E1 pyvc + E4',
+    level='proof',
+    ref='DESIGN.md 4 (C18)',
+    technique='deductive: path-complete symbolic execution of the real io.read / io.write AST with exceptional control flow (try/except/finally) where every external call may raise at its site; ghost close counters per stream',
+    text=('io.read (3 stream kinds) and io.write (8 stream arrangements: factory/open x none/same/separate) are loop-free over '
+          'their externals, so exploring every path with each external call (factory, read, parser, unparser, sourcemap.write, '
+          'write_sourcemap) either raising or returning is complete: on every normal and exceptional exit each factory-made '
+          'stream has been closed exactly once and each passed-in stream never, failures propagate unchanged and parser syntax '
+          'errors are re-raised as the same class with a rebuilt message, and the tree gets the stream name. The content part '
+          '(text = printer output + link, link/paths designate the lower-level map) is a bounded fault-enumeration stand-in.'),
+    note=('Trusted: close() does not raise; externals have no other effect on streams. Bounded only: write_sourcemap, '
+          'verify_write_sourcemap_args, normrelpath, node lists.'),
+)
+
 NOT_APPLICABLE = {p: PENDING for p in ['C01', 'C02', 'C03', 'C04', 'C05', 'C07', 'C12',
-                                        'C13', 'C14', 'C15', 'C17', 'C18', 'C19']}
+                                        'C13', 'C14', 'C15', 'C17', 'C19']}
